@@ -316,7 +316,7 @@ class TexNode(object):
         ' Nested\n    '
         """
         for descendant in self.contents:
-            if isinstance(descendant, (TexText, Token)):
+            if isinstance(descendant, str):  # text from the source or set later
                 yield descendant
             elif hasattr(descendant, 'text'):
                 yield from descendant.text
